@@ -8,6 +8,7 @@ CONSTANTS
   MaxRepl = 7
   MaxWrites = 6
   NoSkew = TRUE
+  ArmQuota = 0
   EnableRename = FALSE
 INIT Init
 NEXT Next
